@@ -212,6 +212,32 @@ def rule_btree_and_kv(ctx: Ctx) -> None:
                     break
     ctx.ob("C14-8", "G5", g, "no node held across a suspension", not bad,
            "BTree.get does not keep a node reference across its page-read suspensions (a concurrent split would move half of the node's keys away)" + ("" if not bad else " — " + bad[0]))
+    # routing agreement: every descent step (internal node) routes a key equal to a separator to the right child (bisect_right),
+    # every leaf lookup uses bisect_left; the post-split adjustment agrees (`key >= separator` goes right)
+    bt = prog.cls(BT, "BTree")
+    n_route = 0
+    for m in bt.methods.values():
+        mf = ctx.flow(m)
+        for st in walk_stmts(m.node.body):
+            if isinstance(st, ast.Assign) and isinstance(st.value, ast.Call) and path_of(st.value.func) in ("bisect.bisect_left", "bisect.bisect_right", "bisect.bisect") \
+                    and len(st.value.args) == 2 and (unparse(st.value.args[0]).endswith(".keys")):
+                nd = path_of(st.value.args[0])[: -len(".keys")]
+                sn = node_of(mf.cfg, st)
+                leaf = mf.holds_at(sn, Fact("truthy", f"{nd}.leaf"))
+                inner = mf.holds_at(sn, Fact("falsy", f"{nd}.leaf"))
+                fnm = path_of(st.value.func).split(".")[-1]
+                if m.name in ("_scan_node",) or path_of(st.value.args[1]) not in ("key",):
+                    continue
+                n_route += 1
+                want = "bisect_left" if leaf else "bisect_right" if inner else None
+                ctx.ob("C14-8", "G4", m, st, want is not None and fnm == want,
+                       f"BTree.{m.name}: {'leaf position lookup uses bisect_left' if leaf else 'descent routes keys equal to a separator to the right child (bisect_right), like every other descent' if inner else 'cannot tell whether the node is a leaf here'}"
+                       f" (found {fnm})")
+    inf = prog.func(BT, "BTree._insert_non_full")
+    adj = [s2 for s2 in walk_stmts(inf.node.body) if isinstance(s2, ast.If) and any(isinstance(b, ast.AugAssign) and path_of(b.target) == "idx" for b in s2.body)]
+    ok = len(adj) == 1 and {f.sig for f in atoms(adj[0].test, True)} == {("le", "node.keys[idx]", "key")}
+    ctx.ob("C14-8", "G4", inf, adj[0] if adj else None, ok, "after splitting the child on the way down, a key >= the promoted separator goes to the right half (the same convention as bisect_right)")
+    need(n_route >= 7, f"C14-8: expected >= 7 key-routing lookups in BTree, found {n_route}")
     kv = prog.cls(KV, "KVStore")
     stores = {}
     for mname in ("get", "put", "delete", "get_sync", "put_sync", "delete_sync"):
@@ -222,7 +248,7 @@ def rule_btree_and_kv(ctx: Ctx) -> None:
         stores[mname] = used
     same = len({frozenset(v) for v in stores.values() if v}) == 1
     ctx.ob("C14-8", "G4", kv.methods["get"], "KVStore methods share one dict", same and len(stores) >= 4, f"KVStore put/get/delete (sync and async) address the same mapping: {stores}")
-    ctx.floor("C14-8", 2)
+    ctx.floor("C14-8", 9)
 
 
 def rule_transactions(ctx: Ctx) -> None:
@@ -263,6 +289,23 @@ def rule_transactions(ctx: Ctx) -> None:
     loops = [s for s in walk_stmts(rd.node.body) if isinstance(s, ast.For) and path_of(s.iter) == "self._manager._commit_log"]
     ctx.ob("C14-6", "G7", rd, rets[0] if rets else None, ok and len(loops) == 1,
            "a snapshot-isolation / serializable read returns the before-image of the first commit newer than its snapshot that overwrote the key (reads come from one consistent snapshot)")
+    # the store value is returned only if, after the store read's suspension, the commit log was scanned in the same step
+    # (a commit landing while the read is suspended changes the store value *and* appends the before-image: both must be seen together)
+    sv = [n for n in rff.cfg.nodes if n.kind == "stmt" and isinstance(n.ast, ast.Return) and path_of(n.ast.value) == "value"]
+    lhead = [n for n in rff.cfg.nodes if n.kind == "for" and loops and n.ast is loops[0]]
+    bad = []
+    for rn in sv:
+        for p in enumerate_paths(rff, rff.cfg.entry, stop=lambda x: x is rn):
+            if not (p.end == "stop" and p.nodes[-1] is rn):
+                continue
+            snap = p.decided(lambda t: t == "self._isolation!=IsolationLevel.READ_COMMITTED")
+            if snap is False:
+                continue
+            last = max([i for i, n in enumerate(p.nodes) if node_suspension(prog, rd, n)] or [-1])
+            if not any(i > last and n in lhead for i, n in enumerate(p.nodes)):
+                bad.append(p.describe()[:140])
+    ctx.ob("C14-6", "G5", rd, sv[0].ast if sv else None, bool(sv) and not bad,
+           "a snapshot read trusts the store value only after scanning the commit log in the step the store read returned (no commit can slip between the scan and the value)" + ("" if not bad else " — " + bad[0]))
     bi = [s for s in walk_stmts(cm.node.body) if isinstance(s, ast.Assign) and unparse(s.targets[0]).replace(" ", "") == "before_images[key]"]
     okb = len(bi) == 1 and path_of(bi[0].value.func) == "self._manager._store.get_sync" and not always_before(ctx, cm, lambda x: x.ast is bi[0], lambda x: x is node_of(ff.cfg, writes[0]))
     kw = {k.arg: unparse(k.value) for c in calls_in(cm.node) if path_of(c.func) == "_CommitLogEntry" for k in c.keywords}
@@ -280,6 +323,10 @@ def run(ctx: Ctx) -> None:
 
 
 MUTANTS = [
+    ("btree-post-split-routes-left", BT, "            if key >= node.keys[idx]:\n                idx += 1", "            idx = bisect.bisect_left(node.keys, key)", "C14-8"),
+    ("btree-delete-routes-left", BT, "        while not node.leaf:\n            idx = bisect.bisect_right(node.keys, key)\n            node = node.children[idx]\n\n        idx = bisect.bisect_left(node.keys, key)\n        if idx < len(node.keys) and node.keys[idx] == key:\n            node.keys.pop(idx)", "        while not node.leaf:\n            idx = bisect.bisect_left(node.keys, key)\n            node = node.children[idx]\n\n        idx = bisect.bisect_left(node.keys, key)\n        if idx < len(node.keys) and node.keys[idx] == key:\n            node.keys.pop(idx)", "C14-8"),
+    ("snapshot-scan-before-store-read", TXN, ["        # Read from underlying store\n        value = yield from self._manager._store.get(key)\n        if self._isolation", "                    return entry.before_images[key]\n        return value"],
+     ["        if self._isolation", "                    return entry.before_images[key]\n        value = yield from self._manager._store.get(key)\n        return value"], "C14-6"),
     ("get-immutables-oldest-first", LSM, "        # Check immutable memtables\n        for imm in reversed(self._immutable_memtables):\n            value = imm.get_sync(key)\n            if value is not None:\n                self._total_read_hits += 1\n                if value is _TOMBSTONE:",
      "        # Check immutable memtables\n        for imm in self._immutable_memtables:\n            value = imm.get_sync(key)\n            if value is not None:\n                self._total_read_hits += 1\n                if value is _TOMBSTONE:", "C14-1"),
     ("get-sstables-oldest-first", LSM, "            # L0: check all SSTables (may have overlapping key ranges)\n            for sstable in reversed(level):", "            # L0: check all SSTables (may have overlapping key ranges)\n            for sstable in level:", "C14-1"),
